@@ -2,7 +2,10 @@
   Concurrent readers of one sparse file (sparse-file.go `loadRange` / `loadChunk`) as a step
   machine.  The cache file is abstracted to one flag per chunk: does the chunk's range hold the
   blob's bytes (`populated`) or its initial content.  Atomic steps are the mutex operations, the
-  store call, the `WriteAt`, the bitmap update and the final `ReadAt`.  The order of the steps
+  store call, `Data()`, the `WriteAt` (or its failure), the bitmap update and the final `ReadAt`; the
+  calls of the pre-load workers (`preloadChunksFromState`) are calls of the same machine.  Each event
+  is one instrumented site of sparse-file.go; recorded traces of the real code are replayed through
+  `step` (driver command `sparse.accept`).  The order of the steps
   inside `loadChunk` is the shape regenerated from the source (`Gen.sparseLoadChunkShape`).
 -/
 import Desync.Generated.Facts
@@ -19,20 +22,21 @@ inductive PC
   | want (range : List Nat) (todo : List Nat)      -- chunks of the requested range; those still to load
   | locked (range todo : List Nat) (i : Nat)       -- holds chunk i's mutex, before the done check
   | fetching (range todo : List Nat) (i : Nat)     -- done was false: store call in flight
-  | fetched (range todo : List Nat) (i : Nat)      -- store returned the chunk's bytes
+  | fetched (range todo : List Nat) (i : Nat)      -- store returned a chunk
   | written (range todo : List Nat) (i : Nat)      -- WriteAt finished
-  | marked (range todo : List Nat) (i : Nat)       -- done bit set, mutex still held
-  | readFile (range : List Nat)                    -- all needed chunks loaded: about to ReadAt
+  | marked (range todo : List Nat) (i : Nat)       -- done bit set (by this reader, or found set at the check), mutex still held
+  | failed (range : List Nat) (i : Nat)            -- the load failed (store call, `Data()`, opening or writing the cache file): mutex still held, the error is on its way out
+  | readFile (range : List Nat)                    -- all needed chunks loaded (`loadRange` returned nil): about to ReadAt
   | returned (ok : Bool) (range : List Nat) (sawBlob : Bool)   -- finished; `sawBlob` = every chunk of the range held the blob's bytes when the file was read
   deriving DecidableEq, Repr
 
 structure St where
   n : Nat                       -- number of chunks
-  isNull : List Bool            -- null chunks: never loaded, their range is zero = blob
+  isNull : List Bool            -- null chunks: never loaded by a read, their range is zero = blob
   populated : List Bool         -- range holds the blob's bytes
   done : List Bool
   lock : List (Option Nat)      -- per chunk mutex holder
-  readers : List PC
+  readers : List PC             -- one entry per call: a `ReadAt`, or a `loadChunk` of a pre-load worker
   deriving Repr
 
 def St.init (isNull : List Bool) (readers : Nat) : St :=
@@ -40,16 +44,22 @@ def St.init (isNull : List Bool) (readers : Nat) : St :=
     done := List.replicate isNull.length false, lock := List.replicate isNull.length none,
     readers := List.replicate readers .idle }
 
+/-- one event per instrumented site of sparse-file.go (hooks `verifSparse`, build tag verif); `r` is the call -/
 inductive Ev
-  | start (r : Nat) (range : List Nat)     -- ReadAt called: needed = range minus done minus null (under RLock)
-  | acquire (r : Nat)                      -- take the mutex of the next needed chunk
+  | start (r : Nat) (range : List Nat)     -- `loadRange`: needed = range minus done minus null (one scan under RLock)
+  | preload (r : Nat) (i : Nat)            -- a pre-load worker received chunk i: `loadChunk i` whatever the bitmap says
+  | acquire (r : Nat)                      -- `chunks[i].mu.Lock()` of the next needed chunk returned
   | check (r : Nat)                        -- read the done bit under the chunk mutex
-  | fetchOk (r : Nat)
-  | fetchFail (r : Nat)                    -- store error: release, return the error
-  | write (r : Nat)
-  | mark (r : Nat)
-  | release (r : Nat)
+  | fetchOk (r : Nat)                      -- `GetChunk` returned a chunk
+  | fetchFail (r : Nat)                    -- `GetChunk` returned an error
+  | dataFail (r : Nat)                     -- `Data()` of the chunk failed
+  | write (r : Nat)                        -- `WriteAt` of the chunk's bytes succeeded
+  | writeFail (r : Nat)                    -- the cache file could not be opened or `WriteAt` failed (possibly after a partial write of the chunk's bytes)
+  | mark (r : Nat)                         -- done bit set (under the loader's write lock)
+  | release (r : Nat)                      -- `chunks[i].mu.Unlock()` (deferred: on every way out of `loadChunk`)
+  | ready (r : Nat)                        -- `loadRange` returned nil
   | read (r : Nat)                         -- ReadAt on the cache file
+  | loaded (r : Nat)                       -- a pre-load worker's `loadChunk` returned nil
   deriving Repr
 
 def setR (s : St) (r : Nat) (pc : PC) : St := { s with readers := s.readers.set r pc }
@@ -64,18 +74,25 @@ def step (s : St) : Ev → Option St
         some (setR s r (.want range todo))
       else none
     | _ => none
+  | .preload r i =>
+    match s.readers[r]? with
+    | some .idle => if i < s.n then some (setR s r (.want [] [i])) else none
+    | _ => none
   | .acquire r =>
     match s.readers[r]? with
     | some (.want range (i :: todo)) =>
       if s.lock.getD i none = none then
         some { setR s r (.locked range todo i) with lock := s.lock.set i (some r) }
       else none
+    | _ => none
+  | .ready r =>
+    match s.readers[r]? with
     | some (.want range []) => some (setR s r (.readFile range))
     | _ => none
   | .check r =>
     match s.readers[r]? with
     | some (.locked range todo i) =>
-      if s.done.getD i false then some { setR s r (.want range todo) with lock := s.lock.set i none }
+      if s.done.getD i false then some (setR s r (.marked range todo i))   -- someone else loaded it: return nil
       else some (setR s r (.fetching range todo i))
     | _ => none
   | .fetchOk r =>
@@ -84,11 +101,21 @@ def step (s : St) : Ev → Option St
     | _ => none
   | .fetchFail r =>
     match s.readers[r]? with
-    | some (.fetching range _ i) => some { setR s r (.returned false range false) with lock := s.lock.set i none }
+    | some (.fetching range _ i) => some (setR s r (.failed range i))
+    | _ => none
+  | .dataFail r =>
+    match s.readers[r]? with
+    | some (.fetched range _ i) => some (setR s r (.failed range i))
     | _ => none
   | .write r =>
     match s.readers[r]? with
     | some (.fetched range todo i) => some { setR s r (.written range todo i) with populated := s.populated.set i true }
+    | _ => none
+  | .writeFail r =>
+    -- a prefix of the chunk's bytes may have been written: a range that held the blob's bytes still does,
+    -- a range that did not is not known to
+    match s.readers[r]? with
+    | some (.fetched range _ i) => some (setR s r (.failed range i))
     | _ => none
   | .mark r =>
     match s.readers[r]? with
@@ -97,11 +124,23 @@ def step (s : St) : Ev → Option St
   | .release r =>
     match s.readers[r]? with
     | some (.marked range todo i) => some { setR s r (.want range todo) with lock := s.lock.set i none }
+    | some (.failed range i) => some { setR s r (.returned false range false) with lock := s.lock.set i none }
     | _ => none
   | .read r =>
     match s.readers[r]? with
     | some (.readFile range) => some (setR s r (.returned true range (range.all fun i => s.populated.getD i false)))
     | _ => none
+  | .loaded r =>
+    match s.readers[r]? with
+    | some (.want [] []) => some (setR s r (.returned true [] true))
+    | _ => none
+
+/-- strict replay of a recorded trace: `none` as soon as an event is not enabled (trace validation) -/
+def replay (s : St) : List Ev → Option St
+  | [] => some s
+  | e :: es => match step s e with
+    | some s' => replay s' es
+    | none => none
 
 /-- run a schedule; events that are not enabled are skipped -/
 def run (s : St) : List Ev → St
